@@ -251,11 +251,12 @@ impl ToZinc for Uri {
 
 impl ToZinc for XStr {
     fn to_zinc<W: std::io::Write>(&self, writer: &mut W) -> Result<()> {
-        writer.write_fmt(format_args!(
-            "{}{}(",
-            self.r#type[0..1].to_uppercase(),
-            &self.r#type[1..],
-        ))?;
+        // The type name is written with its first char in upper case
+        let mut type_chars = self.r#type.chars();
+        if let Some(first) = type_chars.next() {
+            writer.write_fmt(format_args!("{}{}", first.to_uppercase(), type_chars.as_str()))?;
+        }
+        writer.write_all(b"(")?;
         Str::from(self.value.as_str()).to_zinc(writer)?;
         writer.write_all(b")")?;
         Ok(())
